@@ -46,6 +46,18 @@ func decorate(rt *rapid.T, label string, kids []*tnode) []*tnode {
 			kids = append(kids, &tnode{name: n, data: tg.data, link: tg.name})
 		}
 	}
+	// ... and the leftover of an interrupted upload: a visible file like any other, sent under the name it has on disk
+	if len(files) > 0 && rapid.IntRange(0, 3).Draw(rt, label+"_leftover") == 0 {
+		tg := files[rapid.IntRange(0, len(files)-1).Draw(rt, label+"_leftoverOf")]
+		n := tg.name + ".incomplete"
+		if rapid.Bool().Draw(rt, label+"_leftoverAlone") {
+			n = "left behind.incomplete"
+		}
+		if !used[n] {
+			used[n] = true
+			kids = append(kids, &tnode{name: n, data: tg.data[:len(tg.data)/2]})
+		}
+	}
 	for i, k := range kids {
 		l := fmt.Sprintf("%s_%d", label, i)
 		if k.dir {
